@@ -77,4 +77,35 @@ META["C15"] = {
     "note": _STORE_NOTE, "technique": "TLA+ log-store model (TLC) + trace validation of the real raft log store",
 }
 
+_CLUSTER_NOTE = ("Trusted: hashicorp/raft's agreement and ordering (modelled as one committed log; its log store is ours and checked by C15), "
+                 "RocksDB's atomic write batch, TLC, the gated store decorator (pure delegation + logging) and the symbolic hasher. "
+                 "MC bounds: the constants listed in the evidence; conformance: seeded scenarios on real in-process 3-node clusters.")
+META["C05"] = {
+    "text": "Cluster.tla invariants AckedDense / VersionCounter / NoVersionPanic / DurableIsPrefix are model-checked over every interleaving of "
+            "proposals, raft-internal entries (index gaps), compute/persist steps, crashes, restarts with the replay filter, snapshots and "
+            "state transfer. Real clusters are driven with single/bulk adds, follower stop/restart and leadership transfers; TLC validates "
+            "every acknowledgement (version = next one, m consecutive versions per bulk, event digest, canonical history/hyper digests) and "
+            "every store write of every node (applied index strictly increasing, insertion continues at the node's next version).",
+    "note": _CLUSTER_NOTE, "technique": "TLA+ cluster model (TLC) + trace validation of real raft clusters through a gated store",
+}
+META["C06"] = {
+    "text": "ReplicasAgree (equal applied index => equal stores) is an invariant of Cluster.tla. On real clusters every replica's complete "
+            "store is dumped at quiescent points and compared per applied index, every node's writes must carry the same event digests at "
+            "the same versions, and membership/consistency proofs fetched from EVERY replica are verified (through the wire format) against "
+            "the snapshots the leader acknowledged, across follower restarts, leadership transfers and catch-up by log replay; TLC "
+            "re-derives each expected answer from the committed log.",
+    "note": _CLUSTER_NOTE, "technique": "TLA+ cluster model (TLC) + trace validation of proofs and store dumps of every replica",
+}
+META["C09"] = {
+    "text": "InstallSnapshot is an action of Cluster.tla (WAL batches newer than the follower's version, gap => refused, idempotent "
+            "re-load, reload of fsm state/version and cache rebuild); CacheCoherent/DurableIsPrefix/ReplicasAgree are model-checked, and the "
+            "variant without the cache rebuild (the pinned code) violates CacheCoherent. Real clusters: a follower is stopped (or a brand "
+            "new node is used), events are added, raft snapshots are forced on the others (log compaction), optionally the leader changes, "
+            "the node (re)joins by gRPC state transfer; then every event is queried ON THE RESTORED NODE and verified against the leader's "
+            "snapshots, its store is compared with the other replicas, more events are added and the restored node is made leader so that "
+            "its locally computed digests are the acknowledged ones; all validated by TLC.",
+    "note": _CLUSTER_NOTE + " The gap-refusal clause is model-checked only (forcing RocksDB to drop WAL files takes minutes of load).",
+    "technique": "TLA+ cluster model with InstallSnapshot (TLC) + trace validation of real state transfer",
+}
+
 NOT_APPLICABLE = {}
